@@ -334,7 +334,9 @@ func RunProperty(id, tier string) int {
 	}
 	var fjobs []*falsJob
 	for _, r := range runs {
-		if r.err != nil || r.spec.Kind != "lemma" {
+		if r.err != nil || r.spec.Kind != "lemma" || r.spec.Paths {
+			// (path-mode lemmas already run the real bodies, unrolled, along concrete paths:
+			// their failures carry models, and merging their paths again would only explode)
 			continue
 		}
 		// a lemma that still passes is only worth falsifying when it (transitively) calls a
